@@ -178,7 +178,7 @@ def outcome_of(fut):
         return [G.Tag("timeout"), G.Tag({"Timeout in request queue": "queue", "Timeout while connecting": "connecting",
                                            "Timeout during request": "request"}.get(err.message, "other"))]
     if isinstance(err, HTTPStreamClosedError):
-        return [G.Tag("closed"), G.Tag({"Connection closed": "callback", "Stream closed": "read"}.get(err.message, "other"))]
+        return [G.Tag("closed"), G.Tag({"Connection closed": "callback", "Stream closed": "read", "Malformed response": "malformed"}.get(err.message, "other"))]
     if isinstance(err, HTTPClientError):
         return [G.Tag("httperror"), err.code]
     return [G.Tag("error"), G.Tag(type(err).__name__)]
@@ -235,6 +235,12 @@ def run_schedule(case):
                             msg += b"Location: /r%d\r\n" % a
                         msg += b"Content-Length: 0\r\n\r\n"
                         at["stream"].feed(msg)
+                    elif k == "mal":
+                        at["responded"] = True
+                        at["stream"].feed(b"garbage without a status line\r\n\r\n" if a % 2 else b"HTTP/1.1 200 OK\r\nNo Colon Here\r\n\r\n")
+                    elif k == "bf":
+                        at["responded"] = True
+                        at["stream"].feed(b"HTTP/1.1 200 OK\r\nContent-Length: x\r\n\r\n")
                     elif k == "close":
                         at["stream"].feed(EOF)
                     elif k == "reset":
@@ -272,7 +278,8 @@ def g_event(ev):
         return "EFetch " + g_spec(ev)
     if k == "resp":
         return "ERespond %s %s %s" % (G.gnat(ev[1]), G.gz(ev[2]), G.gbool(bool(ev[3])))
-    name = {"qt": "EQTimeout", "ct": "ECTimeout", "ok": "EConnOk", "fail": "EConnFail", "close": "EClose", "reset": "EReset"}[k]
+    name = {"qt": "EQTimeout", "ct": "ECTimeout", "ok": "EConnOk", "fail": "EConnFail", "close": "EClose", "reset": "EReset",
+            "mal": "EMalformed", "bf": "EBadFraming"}[k]
     return "%s %s" % (name, G.gnat(ev[1]))
 
 
@@ -314,6 +321,8 @@ def ref_next_url(orig, joined):
 
 def finalize_redir(case):
     """fill in urljoin's result for every scripted answer (hops: [code, loc] -> [code, loc, joined])"""
+    if case.get("dict"):        # what list(dict(pairs).items()) is: first position, last value
+        case = dict(case, headers=[list(kv) for kv in dict((n, v) for n, v in case["headers"]).items()])
     cur = case["url"]
     hops = []
     for code, loc in [h[:2] for h in case["hops"]]:
@@ -356,8 +365,8 @@ def coq_redirect(case):
     mr = "(@None Z)" if case["maxred"] is None else "(Some %s)" % G.gz(case["maxred"])
     fo = "(@None bool)" if case["follow"] is None else "(Some %s)" % G.gbool(case["follow"])
     script = G.glist(["(mkHop %s %s %s)" % (G.gz(c), G.gbool(loc is not None), g_text(j)) for c, loc, j in case["hops"]], "hop")
-    return "(CRedir (mkRCase %s %s %s %s %s %s %s %s %s %s %s))" % (
-        g_text(tornado_version()), g_text(case["url"]), g_text(case["method"]), body, hdrs,
+    return "(CRedir (mkRCase %s %s %s %s %s %s %s %s %s %s %s %s))" % (
+        g_text(tornado_version()), g_text(case["url"]), g_text(case["method"]), body, hdrs, G.gbool(bool(case.get("dict"))),
         g_otext(case["auth_user"]), g_otext(case["auth_pass"]), mr, fo, g_otext(case["ua"]), script)
 
 
@@ -375,6 +384,9 @@ def corpus_cases():
         sched(1, [F(ct=0, rt=1, mr=3), ["ok", 0], ["resp", 0, 301, 1], ["ct", 1]]),
         sched(1, [F(), ["ok", 0], ["resp", 0, 302, 1], ["fail", 1]]),
         sched(1, [F(), F(), ["ok", 0], ["resp", 0, 307, 1], ["qt", 2], ["ok", 1], ["close", 1]]),
+        # a later-queued request expires before an earlier-queued one, then a slot frees
+        sched(1, [F(), F(ct=0, rt=0), F(), F(), ["qt", 2], ["ok", 0], ["resp", 0, 200, 0], ["ok", 1], ["resp", 1, 200, 0], ["ok", 3], ["close", 3]]),
+        sched(1, [F(), F(), ["ok", 0], ["mal", 0], ["ok", 1], ["bf", 1]]),
         # before fix 8cd6af7 the multi-valued Cookie survived the cross-origin redirect
         R("http://a.test/x", [(302, "http://b.test/y")], headers=MULTI_COOKIE + [("Authorization", "tok")]),
         R("http://u:p@a.test/x?q=1", [(302, "http://b.test/y"), (303, "/z")], method="POST", body="hello",
@@ -390,6 +402,9 @@ def corpus_cases():
         R("http://a.test/x", [(302, "http://b.test/")], headers=[("Host", "zzz")]),
         R("http://u:p@a.test/x", [(302, "https:////u2:p2@b.test/y")], headers=[("Cookie", "a=1")]),
         R("http://a.test/x", [(302, "http://u@:81/y")], headers=[("Cookie", "a=1")]),
+        R("http://a.test/x", [(302, "http://b.test/y")], headers=[("cookie", "a=1"), ("COOKIE", "b=2"), ("authorization", "t")], dict=True),
+        R("http://a.test/x", [(302, "/y")], headers=[("X-A", "v\nInjected: 1")], dict=True),
+        R("http://a.test/x", [(302, "/y")], headers=[("Bad Name", "v")], dict=True),
     ]
     return out
 
@@ -406,10 +421,14 @@ def rand_event(rng, n_att_guess):
         return ["fail", a]
     if r < 0.55:
         return ["resp", a, rng.choice(CODES), 0 if rng.random() < 0.15 else 1]
-    if r < 0.65:
+    if r < 0.62:
         return ["close", a]
-    if r < 0.70:
+    if r < 0.66:
         return ["reset", a]
+    if r < 0.68:
+        return ["mal", a]
+    if r < 0.70:
+        return ["bf", a]
     if r < 0.85:
         return ["qt", a]
     return ["ct", a]
@@ -475,7 +494,7 @@ class Sim:
                 if a["cb"] and (sp[1] or sp[2]):
                     out.append(["ct", k])
             elif a["st"] == "open":
-                out += [["resp", k, None, None], ["resp", k, None, None], ["close", k], ["reset", k]]
+                out += [["resp", k, None, None], ["resp", k, None, None], ["resp", k, None, None], ["close", k], ["reset", k], ["mal", k], ["bf", k]]
                 if sp[2]:
                     out.append(["ct", k])
         return out
@@ -494,7 +513,7 @@ class Sim:
                 self.end(k)
             else:
                 a["st"] = "open"
-        elif ev[0] in ("fail", "close", "reset"):
+        elif ev[0] in ("fail", "close", "reset", "mal", "bf"):
             a["st"] = "done"
             if a["cb"]:
                 self.end(k)
@@ -555,6 +574,8 @@ def enum_sched(mx, specs, depth, cap, rng):
             return
         seen = []
         for ev in sim.applicable():
+            if ev[0] in ("mal", "bf"):      # same transition as "close" up to the outcome: sampled, not enumerated
+                continue
             for ev2 in ([ev] if ev[0] != "resp" else [["resp", ev[1], 200, 0], ["resp", ev[1], 302, 1]]):
                 if ev2 not in seen:
                     seen.append(ev2)
@@ -610,7 +631,7 @@ def rand_redir(rng):
     hdrs = [rng.choice(HDR_POOL) for _ in range(rng.choice([0, 1, 2, 3, 3, 4, 6]))]
     if body is None:        # a Content-Length without a body is HTTP1Connection's HTTPOutputError: not this property
         hdrs = [h for h in hdrs if h[0] != "Content-Length"]
-    if rng.random() < 0.03:
+    if rng.random() < 0.06:
         hdrs.insert(rng.randrange(len(hdrs) + 1), rng.choice(BAD_HDRS))
     au, ap = rng.choice([(None, None), (None, None), ("me", "pw"), ("me", None), ("me", ""), ("", "pw"), (None, "pw")])
     nh = rng.choice([0, 1, 1, 2, 2, 3, 4, 7])
@@ -620,7 +641,7 @@ def rand_redir(rng):
         hops.append([code, None if rng.random() < 0.05 else rand_loc(rng, url)])
     c = R(url, hops, method=method, body=body, headers=hdrs, auth_user=au, auth_pass=ap,
           maxred=rng.choice([None, None, 0, 1, 2, 3, 6, -1]), follow=rng.choice([None, True, True, False]),
-          ua=rng.choice([None, None, None, "ua/1", ""]))
+          ua=rng.choice([None, None, None, "ua/1", ""]), dict=(rng.random() < 0.3))
     return c
 
 
@@ -639,14 +660,61 @@ def enum_redir():
                     for loc in locs:
                         for auth in ((None, None), ("me", "pw")):
                             out.append(R(o, [(code, loc), (302, "/again")], method=method, body=body, headers=hs,
-                                         auth_user=auth[0], auth_pass=auth[1]))
+                                         auth_user=auth[0], auth_pass=auth[1], dict=(len(out) % 3 == 2)))
     return out
+
+
+def gen_qt_order(rng):
+    """queue timeouts that do NOT arrive in FIFO order, interleaved with slot releases"""
+    mx = rng.choice([1, 1, 2])
+    nq = rng.randrange(2, 5)
+    evs = [F() for _ in range(mx)]
+    specs = []
+    for i in range(nq):
+        f = rand_fetch(rng)
+        f[5] = 0
+        if i > 0 or rng.random() < 0.5:
+            f[1] = 1                      # has a queue timer
+        specs.append(f)
+    evs += specs
+    queued = list(range(mx, mx + nq))
+    active = list(range(mx))
+    nxt = mx + nq
+    for _ in range(rng.randrange(2, 8)):
+        r = rng.random()
+        cand = [q for q in queued[1:] if specs[q - mx][1] or specs[q - mx][2]] if len(queued) > 1 else []
+        if cand and r < 0.45:
+            q = rng.choice(cand)          # a later request expires before an earlier one
+            evs.append(["qt", q])
+            queued.remove(q)
+        elif active and r < 0.9:
+            a = rng.choice(active)
+            evs.append(["ok", a])
+            evs.append(rng.choice([["resp", a, 200, 0], ["close", a], ["resp", a, 404, 0], ["mal", a]]))
+            active.remove(a)
+            if queued:
+                active.append(queued.pop(0))
+        elif queued:
+            q = queued[0]
+            if specs[q - mx][1] or specs[q - mx][2]:
+                evs.append(["qt", q])
+                queued.pop(0)
+    for a in list(active):
+        evs += [["ok", a], ["resp", a, 200, 0]]
+        active.remove(a)
+        if queued:
+            active.append(queued.pop(0))
+    for a in list(active):
+        evs += [["ok", a], ["resp", a, 200, 0]]
+    return sched(mx, evs)
 
 
 def gen_cases(rng, tier):
     out = []
     quick = tier == "quick"
-    for _ in range(130 if quick else 1000):
+    for _ in range(30 if quick else 200):
+        out.append(gen_qt_order(rng))
+    for _ in range(130 if quick else 800):
         out.append(gen_sched_valid(rng))
     for _ in range(40 if quick else 250):
         out.append(gen_sched(rng))
@@ -663,14 +731,14 @@ def gen_cases(rng, tier):
         out += enum_sched(2, three, 3, 400, rng)
         out += enum_sched(0, [F(), F(ct=0, rt=0)], 3, 50, rng)
     n = 0
-    want = 160 if quick else 1000
+    want = 160 if quick else 700
     while n < want:
         c = rand_redir(rng)
         if modelled(c):
             out.append(c)
             n += 1
     en = [c for c in enum_redir() if modelled(c)]
-    en = rng.sample(en, 90 if quick else 1600)
+    en = rng.sample(en, 90 if quick else 1100)
     out += en
     rng.shuffle(out)        # balance the coqc shards (redirect cases are the heavy ones)
     return out
@@ -739,6 +807,8 @@ def py_check_redir(case, o):
             return False
         prev_method = bytes(hops[i - 1][4]).split(b" ")[0]
         url, start, lines, body = hops[i][0], bytes(hops[i][4]), hops[i][5], bytes(hops[i][6])
+        if start == b"":        # the follow-up failed before it wrote anything: it carried nothing
+            continue
         names = _names(lines)
         if (code == 303 and prev_method != b"HEAD") or (code in (301, 302) and prev_method == b"POST"):
             if not start.startswith(b"GET ") or body != b"":
@@ -823,7 +893,7 @@ TRUSTED_BASE = [
     "urllib.parse.urljoin is NOT modelled: its result for every scripted Location is computed by the generator (stdlib urljoin on the chain of URLs obtained with a 10-line urllib-only reference) and given to the model as data; a wrong value shows up as a correspondence mismatch, it cannot make a theorem true (the theorems quantify over every joined URL)",
     "Url.v: hand-written Gallina urlsplit / urlunsplit / username,password,hostname,port / split_host_and_port for ASCII text without bracketed hosts (CPython 3.12.1 semantics), tied to the stdlib only through the correspondence runs; non-ASCII input and '[' ']' in a netloc are an explicit Unmodelled result and are not generated",
     "C06's HTTPHeaders model (coq/C06/Model.v) for the header objects",
-    "HTTP1Connection request serialisation is modelled only as far as the client uses it here (request line, 'Name: value' lines in get_all order, body with Content-Length); chunked request bodies, body_producer, expect_100_continue, proxies, streaming/header callbacks, decompression of responses are outside the model and not exercised",
+    "HTTP1Connection request serialisation is modelled only as far as the client uses it here (request line, 'Name: value' lines in get_all order, body with Content-Length); response parsing enters as events (complete response / malformed head / bad framing / EOF / reset); chunked request bodies, body_producer, expect_100_continue, proxies, streaming/header callbacks, decompression of responses are outside the model and not exercised",
 ]
 ASSUMPTIONS = [
     "Part 1 (admission/completion): request URLs are valid http URLs, so every started connection reaches tcp_client.connect; timeouts enter only as 'non-zero or zero' (a timer exists or not) and a timer may fire at any later moment",
@@ -844,8 +914,7 @@ LEVEL_TEXT = ("Machine-checked (Coq) theorems over ALL event lists of an executa
 LEVEL_NOTE = ("Trusted: Coq kernel/vm_compute; the recording harness (fake TCP/streams, captured timers); the hand-written URL model and the externally supplied urljoin "
               "results; C06's header model. The 'no userinfo / no Authorization on the wire' theorems need a non-empty netloc in the Location-derived URL: for an empty netloc and "
               "a path starting with '//' CPython 3.12.1's urlunsplit re-creates a netloc from the path (a proved witness is in Property.v); only credentials that the redirecting "
-              "server wrote into Location can appear then. Not proved: that the model passes the redirect checker (the schedule checker is proved sound); the checker and an "
-              "independent Python oracle (which also applies the conservation law |active|+|queue|+completed = submitted after every event) run on the implementation's observables.")
+              "server wrote into Location can appear then. The Coq checker (proved to accept the model on every input) and an independent Python oracle run on the implementation's observables.")
 TECHNIQUE = "Coq proof (inductive invariants over all event lists; structural lemmas over the C06 header model) + differential correspondence via vm_compute + property checker on implementation observables"
 
 
@@ -877,9 +946,12 @@ def run_redirect(case):
         hops = []
         try:
             try:
-                h = HTTPHeaders()
-                for n, v in case["headers"]:
-                    h.add(n, v)
+                if case.get("dict"):
+                    h = dict((n, v) for n, v in case["headers"])        # plain dict: fetch() converts with update()
+                else:
+                    h = HTTPHeaders()
+                    for n, v in case["headers"]:
+                        h.add(n, v)
                 kw = {}
                 if case.get("ua") is not None:
                     kw["user_agent"] = case["ua"]
@@ -935,7 +1007,7 @@ def run_redirect(case):
         logging.disable(logging.NOTSET)
 
 
-def redir(url, hops, method="GET", body=None, headers=(), auth_user=None, auth_pass=None, maxred=None, follow=True, ua=None):
-    return {"kind": "redir", "url": url, "method": method, "body": body, "headers": [list(x) for x in headers],
+def redir(url, hops, method="GET", body=None, headers=(), auth_user=None, auth_pass=None, maxred=None, follow=True, ua=None, dict=False):
+    return {"kind": "redir", "dict": bool(dict), "url": url, "method": method, "body": body, "headers": [list(x) for x in headers],
             "auth_user": auth_user, "auth_pass": auth_pass, "maxred": maxred, "follow": follow, "ua": ua,
             "hops": [list(x) for x in hops]}
